@@ -184,10 +184,10 @@ func Subjects(maxLen int) [][]uint16 {
 // distinguish ES5 from other regexp dialects — the line terminators \r and
 // U+2028 (15.10.2.6 / 15.10.2.8: '.', multiline ^ $), the two non-ASCII
 // characters whose case folding reaches ASCII, U+017F (long s) and U+212A
-// (Kelvin sign) (15.10.2.8 Canonicalize never maps them to s / k), and the
-// letter s itself. Every string x, xp, px with x an extended symbol and p in
+// (Kelvin sign) (15.10.2.8 Canonicalize never maps them to s / k), the letter s
+// itself, and U+2014 (a non-ASCII character that is not an IdentifierPart: \\u2014 is an IdentityEscape). Every string x, xp, px with x an extended symbol and p in
 // {a, b, \n}, plus the \r\n combinations.
-var extSymbols = []uint16{'\r', 0x2028, 0x017F, 0x212A, 's'}
+var extSymbols = []uint16{'\r', 0x2028, 0x017F, 0x212A, 's', 0x2014}
 
 func extSubjects() [][]uint16 {
 	var out [][]uint16
